@@ -174,6 +174,8 @@ Next1 ==
        [] k = "CamStop" -> Flag(If(~p.camRun[e.s], "CamStopWhileStopped")) /\ p' = [p EXCEPT !.camRun[e.s] = FALSE]
        [] k = "CamFrame" -> /\ Flag(If(~p.camRun[e.s], "FrameWhileCameraStopped") \o Quiet(e))
                             /\ p' = [p EXCEPT !.cam[e.s] = Append(p.cam[e.s], [hw |-> e.hw, w |-> e.w, h |-> e.h, ty |-> e.ty, tag |-> e.tag])]
+       \* the client configured another averaging window (between acquisitions)
+       [] k = "AvgSet" -> p' = [p EXCEPT !.cfg.streams[e.s + 1].avg = e.avg] /\ NoFlag
        [] k = "CamFail" -> p' = [p EXCEPT !.camFail[e.s] = TRUE] /\ NoFlag
        \* a storage device that fails an append leaves the running state by itself (it reports a non-running state)
        [] k = "StorFail" -> p' = [p EXCEPT !.storFail[e.s] = TRUE, !.storRun[e.s] = FALSE] /\ NoFlag
